@@ -476,6 +476,28 @@ def rule_HT1(ctx, tier):
             else:
                 rr.fail("empty-field-forwarded:%s.%s" % (m, fl[2:]), "http::%s forwards a request whose `%s` may be empty" % (m, fl[2:]), where=h.span)
     rr.require_floor(30, "HT1 instances")
+    # what each handler refuses on its own is exactly the documented field checks: an extra check (an empty blob, say) turns
+    # requests the client can legitimately emit into errors; a missing one lets the internal service's unwraps see bad data
+    WANT = {
+        "register": {("empty_field", "user_id"), ("wrong_field_length", "user_id")},
+        "add_appointment": {("missing_field", "appointment"), ("empty_field", "locator"), ("wrong_field_length", "locator"), ("empty_field", "signature")},
+        "get_appointment": {("empty_field", "locator"), ("wrong_field_length", "locator"), ("empty_field", "signature")},
+        "get_subscription_info": {("empty_field", "signature")},
+    }
+    for m, want in WANT.items():
+        got = set()
+        hfn = "teos::api::http::" + m
+        for bid in P.family(hfn) if hfn in P.bodies else []:
+            hb = P.bodies[bid]
+            for bb, t in hb.calls():
+                tg = call_target(t) or ""
+                if "api::http::ApiError::" in tg and tg.split("::")[-1] in ("empty_field", "wrong_field_length", "missing_field", "wrong_field_type", "wrong_field_format"):
+                    a0 = arg_origin(ctx, hb, bb, 0)
+                    got.add((tg.split("::")[-1], a0[1] if a0[0] == "const" else og.show(a0)[:30]))
+        if got == want:
+            rr.ok("http::%s validates %s" % (m, sorted(want)), sample={"rule": "HT1", "handler": m, "field checks": sorted(got)})
+        else:
+            rr.fail("field-checks:%s" % m, "http::%s refuses %s on its own; documented: %s (extra: %s, missing: %s)" % (m, sorted(got), sorted(want), sorted(got - want), sorted(want - got)), where=P.bodies[hfn].span if hfn in P.bodies else None)
     return rr
 
 
